@@ -723,6 +723,213 @@ class Gen:
                 "args": [self.arg(depth) for _ in range(rng.randint(0, 2))]}
 
 
+# ------------------------------------------------------------------------------------------------ sibling nodes
+# Resolution is per node: what one node resolves to must not depend on the other nodes of the HUGR.  The sibling
+# stream builds HUGRs whose custom nodes are one-point variations of one base node (same operation name and
+# extension; different in the extension of one same-named opaque type, in the description, or in one component at
+# any depth) and registries that are partial in exactly the distinguishing extension.
+def flip(b):
+    return "A" if b == "C" else "C"
+
+
+def mut_ty(t, twin, depth=0):
+    """one-point variations of a type tree: (tag, depth, tree)"""
+    k = t[0]
+    if k == "opaque":
+        yield "type-ext", depth, ["opaque", twin(t[1]), t[2], t[3], t[4]]
+        yield "type-id", depth, ["opaque", t[1], t[2] + "2", t[3], t[4]]
+        yield "type-bound", depth, ["opaque", t[1], t[2], t[3], flip(t[4])]
+        for j, a in enumerate(t[3]):
+            for tag, d, a2 in mut_arg(a, twin, depth + 1):
+                yield tag, d, ["opaque", t[1], t[2], t[3][:j] + [a2] + t[3][j + 1:], t[4]]
+    elif k == "sum":
+        for i, row in enumerate(t[1]):
+            for j, x in enumerate(row):
+                for tag, d, x2 in mut_ty(x, twin, depth + 1):
+                    yield tag, d, ["sum", t[1][:i] + [row[:j] + [x2] + row[j + 1:]] + t[1][i + 1:]]
+    elif k == "tuple":
+        for j, x in enumerate(t[1]):
+            for tag, d, x2 in mut_ty(x, twin, depth + 1):
+                yield tag, d, ["tuple", t[1][:j] + [x2] + t[1][j + 1:]]
+    elif k == "func":
+        for pos in (1, 2):
+            for j, x in enumerate(t[pos]):
+                for tag, d, x2 in mut_ty(x, twin, depth + 1):
+                    u = list(t)
+                    u[pos] = t[pos][:j] + [x2] + t[pos][j + 1:]
+                    yield tag, d, u
+        yield "reqs", depth, ["func", t[1], t[2], [r for r in GEN_EXTS if r not in t[3]][:1] + t[3][1:]]
+    elif k == "unit":
+        yield "leaf", depth, ["unit", t[1] + 1]
+    elif k in ("var", "rowvar"):
+        yield "leaf", depth, [k, t[1] + 1, t[2]]
+        yield "leaf", depth, [k, t[1], flip(t[2])]
+    elif k == "alias":
+        yield "leaf", depth, ["alias", t[1] + "2", t[2]]
+    elif k == "usize":
+        yield "leaf", depth, ["qubit"]
+    elif k == "qubit":
+        yield "leaf", depth, ["usize"]
+
+
+def mut_arg(a, twin, depth=0):
+    k = a[0]
+    if k == "type":
+        for tag, d, t2 in mut_ty(a[1], twin, depth):
+            yield tag, d, ["type", t2]
+    elif k == "nat":
+        yield "leaf", depth, ["nat", a[1] + 1]
+    elif k == "str":
+        yield "leaf", depth, ["str", a[1] + "x"]
+    elif k == "seq":
+        for j, x in enumerate(a[1]):
+            for tag, d, x2 in mut_arg(x, twin, depth + 1):
+                yield tag, d, ["seq", a[1][:j] + [x2] + a[1][j + 1:]]
+        if a[1]:
+            yield "seq-len", depth, ["seq", a[1] + a[1][-1:]]
+    elif k == "exts":
+        yield "leaf", depth, ["exts", [r for r in GEN_EXTS if r not in a[1]][:1] + a[1][1:]]
+    elif k == "var":
+        yield "leaf", depth, ["var", a[1] + 1, a[2]]
+
+
+def mut_node(n, twin):
+    """one-point variations of a custom node spec that keep its operation name and extension: (tag, depth, node)"""
+    yield "descr", 0, {**n, "descr": n["descr"] + "'"}
+    yield "descr", 0, {**n, "descr": "" if n["descr"] else "other"}
+    f = n["sig"]
+    for pos in ("in", "out"):
+        for j, x in enumerate(f[pos]):
+            for tag, d, x2 in mut_ty(x, twin, 1):
+                yield "sig:" + tag, d, {**n, "sig": {**f, pos: f[pos][:j] + [x2] + f[pos][j + 1:]}}
+    yield "sig:reqs", 0, {**n, "sig": {**f, "reqs": [r for r in GEN_EXTS if r not in f["reqs"]][:1] + f["reqs"][1:]}}
+    for j, a in enumerate(n["args"]):
+        for tag, d, a2 in mut_arg(a, twin, 1):
+            yield "arg:" + tag, d, {**n, "args": n["args"][:j] + [a2] + n["args"][j + 1:]}
+
+
+def rename_type_ext(x, src, dst):
+    """every opaque type of extension src (at any depth of a node spec / tree) moved to extension dst"""
+    if isinstance(x, list):
+        if x and x[0] == "opaque" and x[1] == src:
+            return ["opaque", dst, x[2], rename_type_ext(x[3], src, dst), x[4]]
+        return [rename_type_ext(y, src, dst) for y in x]
+    if isinstance(x, dict):
+        return {k: (rename_type_ext(v, src, dst) if k in ("sig", "args", "in", "out") else v) for k, v in x.items()}
+    return x
+
+
+TWIN_NAMES = ["ext.c", "types.b", "ext.a2"]
+
+
+def sibling_case(rng, allstd):
+    """a HUGR of near-identical custom nodes + a registry partial in the extension that tells them apart"""
+    universe = rand_universe(rng)
+    # E: an extension with at least one type definition; E2: its twin (same type and operation names, same
+    # parameters and bounds, so that a type moved from E to E2 is consistent under either)
+    E = rng.choice(universe)
+    if not E["types"]:
+        E["types"].append({"name": rng.choice(TYPE_IDS), "descr": "", "bound": ["E", rng.choice("CA")], "params": []})
+    if rng.random() < 0.5 and not any(d["params"] for d in E["types"]):
+        E["types"].append({"name": next(i for i in TYPE_IDS + ["Box"] if i not in {d["name"] for d in E["types"]}),
+                           "descr": "", "params": [["type", "A"]], "bound": ["P", [0]]})
+    others = [e["name"] for e in universe if e is not E]
+    e2name = rng.choice([n for n in GEN_EXTS + TWIN_NAMES if n != E["name"] and n not in others])
+    E2 = {"name": e2name, "types": [{**json.loads(json.dumps(d)), "descr": rng.choice(DESCRS)} for d in E["types"]],
+          "ops": [{**d, "descr": rng.choice(DESCRS)} for d in E["ops"]]}
+    universe.append(E2)
+    # the operation: of any extension of the universe (E and E2 included), with a definition
+    O = rng.choice(universe)
+    if not O["ops"]:
+        O["ops"].append({"name": rng.choice(OP_IDS), "descr": rng.choice(DESCRS), "sig": "poly"})
+        if O is E:
+            E2["ops"].append({**O["ops"][0], "descr": rng.choice(DESCRS)})
+    opn = rng.choice(O["ops"])["name"]
+    std_names = rng.sample(allstd, rng.choice([0, 0, 1]))
+    g = Gen(rng, universe, std_names)
+
+    def twin(e):
+        if e == E["name"]:
+            return E2["name"]
+        if e == E2["name"]:
+            return E["name"]
+        return rng.choice([n for n in [x["name"] for x in universe] + ["nowhere"] if n != e])
+
+    def of_E():                         # an opaque type of E, plain or wrapped
+        d = rng.choice(E["types"])
+        args = [g.arg_for(p, rng.choice([0, 1])) for p in d["params"]]
+        o = ["opaque", E["name"], d["name"], args, def_bound(d, args) or "A"]
+        r = rng.random()
+        if r < 0.55:
+            return o
+        if r < 0.7:
+            return ["sum", [[o], [["unit", 2], o][:rng.randint(0, 2)]]]
+        if r < 0.8:
+            return ["func", [o], [g.ty(0)], []]
+        boxes = [(k, dd) for k, dd in g.defs.items() if [p[0] for p in dd["params"]] == ["type"]]
+        if boxes:
+            (be, bi), bd = rng.choice(sorted(boxes, key=lambda kv: kv[0]))
+            return ["opaque", be, bi, [["type", o]], def_bound(bd, [["type", o]]) or "A"]
+        return ["opaque", "nowhere", "U", [["type", o]], rng.choice("CA")]
+
+    t = of_E()
+    base = g.custom(rng.choice([0, 1]))
+    base["ext"], base["name"] = O["name"], opn
+    shape = rng.random()
+    if shape < 0.4:                     # polymorphic identity applied to t
+        base["sig"] = {"in": [t], "out": [t], "reqs": base["sig"]["reqs"]}
+        base["args"] = [["type", t]]
+    elif shape < 0.6:                   # only in the signature
+        base["sig"]["in"] = base["sig"]["in"][:1] + [t]
+    elif shape < 0.8:                   # only in the type arguments
+        base["args"] = base["args"][:1] + [rng.choice([["type", t], ["seq", [["type", t], ["nat", 3]]]])]
+    else:
+        base["sig"]["out"] = [of_E()] + base["sig"]["out"][:1]
+        base["args"] = [["type", t]] + base["args"][:1]
+
+    muts = list(mut_node(base, twin))
+    by = {"ext": [m for m in muts if m[0].endswith("type-ext")],
+          "descr": [m for m in muts if m[0] == "descr"],
+          "deep": [m for m in muts if m[1] >= 2] or muts,
+          "any": muts}
+    nodes, tags = [base], ["base"]
+    for _ in range(rng.choice([1, 1, 2, 3])):
+        kind = rng.choice(["ext", "ext", "ext-all", "descr", "deep", "any", "dup"])
+        if kind == "dup":
+            nodes.append(json.loads(json.dumps(base)))
+        elif kind == "ext-all":
+            nodes.append(rename_type_ext(base, E["name"], E2["name"]))
+        else:
+            tag, _, n2 = rng.choice(by[kind] or muts)
+            if kind == "deep" and rng.random() < 0.3:      # and the description as well
+                n2 = {**n2, "descr": rng.choice(["", "orig", "rotate"])}
+            nodes.append(n2)
+            kind = kind + ":" + tag
+        tags.append(kind)
+    order = list(range(len(nodes)))
+    rng.shuffle(order)
+    nodes, tags = [nodes[i] for i in order], [tags[i] for i in order]
+    if rng.random() < 0.25:
+        nodes.insert(rng.randrange(len(nodes) + 1), {"op": "std", "which": rng.choice(STD_OPS), "ty": g.ty(1)})
+    # registry: partial in exactly the distinguishing extension (either side), or complete / definition dropped
+    mode = rng.choice(["sib:only-E", "sib:only-E", "sib:only-E2", "sib:only-E2", "sib:both", "sib:E2-no-types",
+                       "sib:E-no-types", "sib:neither"])
+    reg = [json.loads(json.dumps(e)) for e in universe]
+    drop = {"sib:only-E": [E2["name"]], "sib:only-E2": [E["name"]], "sib:neither": [E["name"], E2["name"]]}.get(mode, [])
+    reg = [e for e in reg if e["name"] not in drop]
+    for e in reg:
+        if (mode, e["name"]) in (("sib:E2-no-types", E2["name"]), ("sib:E-no-types", E["name"])):
+            e["types"] = []
+    if drop and O["name"] in drop and rng.random() < 0.7:
+        # keep the operation's definition resolvable: file it in an extension that stays
+        keep = dict(next(e for e in universe if e["name"] == O["name"]))
+        reg.append({"name": keep["name"], "types": [], "ops": keep["ops"]})
+    reg += [{"std": s} for s in std_names if s not in {e["name"] for e in reg}]
+    rng.shuffle(reg)
+    return {"kind": "hugr", "via": rng.choice(["loaded", "loaded", "built"]), "reg": reg, "mode": mode, "nodes": nodes,
+            "sib": tags}
+
+
 STD_OPS = ["noop", "not", "divmod", "maketuple", "tag", "dfg", "iadd", "fadd", "list_push"]
 
 
@@ -843,7 +1050,11 @@ class C11(fw.Prop):
             "function types, type arguments, sequence arguments and arguments of (resolvable and unresolvable) opaque "
             "types; a deterministic sweep over every type and operation definition of every std extension; an edge "
             "stream with inconsistent recorded bounds, wrong argument counts, directly built definition-backed types "
-            "and polymorphic function types.  non-trivial = resolution changed the object and at least one opaque "
+            "and polymorphic function types; a sibling stream: HUGRs of 2-4 custom nodes that are one-point variations of "
+            "one base node (same operation, differing in the extension of one or all same-named opaque types in "
+            "signature / type arguments, in the description, or in one component at any depth, plus exact duplicates) "
+            "over twin extensions defining the same type names, with registries knowing exactly one twin, both, "
+            "neither, or a twin without its types.  non-trivial = resolution changed the object and at least one opaque "
             "type or operation stayed opaque, or opaque types are nested at depth >= 2")
     trusted = ["printers of harness/props/c11.py: hugr objects / pydantic dumps / hugr.model dataclass trees -> Gallina "
                "literals; model symbols are split into (extension, id) against the pairs occurring in the case",
@@ -863,6 +1074,12 @@ class C11(fw.Prop):
                                              {"name": "List", "descr": "", "params": [["type", "A"]], "bound": ["P", [0]]}],
                  "ops": [{"name": "Op", "descr": "a definition", "sig": "plain"}]}
         t_in = ["opaque", "ext.a", "T", [], "C"]
+        t_other = ["opaque", "ext.b", "T", [], "C"]
+        ext_ops = {"name": "ext.ops", "types": [], "ops": [{"name": "Id", "descr": "identity", "sig": "poly"}]}
+
+        def ident(t):
+            return {"op": "custom", "ext": "ext.ops", "name": "Id", "descr": "identity",
+                    "sig": {"in": [t], "out": [t], "reqs": ["ext.ops"]}, "args": [["type", t]]}
         return [
             # D15: argument of an unresolvable opaque type stays unresolved
             {"kind": "ty", "via": "loaded", "reg": [ext_a], "t": ["opaque", "nowhere", "U", [["type", t_in]], "C"]},
@@ -882,6 +1099,13 @@ class C11(fw.Prop):
                         "sig": {"in": [t_in], "out": [["opaque", "nowhere", "U", [["type", t_in]], "A"]], "reqs": ["ext.a"]},
                         "args": [["type", t_in]]},
                        {"op": "std", "which": "dfg", "ty": t_in}]},
+            # seeded C11-b (resolution of one node leaking into another): the same operation applied to same-named
+            # opaque types of two extensions, registry knows the operation and only one of the two extensions
+            {"kind": "hugr", "via": "loaded", "reg": [ext_a, ext_ops], "nodes": [ident(t_in), ident(t_other)]},
+            {"kind": "hugr", "via": "loaded", "reg": [ext_a, ext_ops], "nodes": [ident(t_other), ident(t_in), ident(t_in)]},
+            # ... and two unresolvable nodes that differ only in their description
+            {"kind": "hugr", "via": "loaded", "reg": [ext_a],
+             "nodes": [ident(t_in), {**ident(t_in), "descr": "other"}]},
         ]
 
     def generate(self, rng, tier, ctx):
@@ -908,6 +1132,9 @@ class C11(fw.Prop):
                         nodes.append({"op": "std", "which": rng.choice(STD_OPS), "ty": g.ty(1)})
                 cases.append({"kind": "hugr", "via": rng.choice(["loaded", "loaded", "built"]), "reg": reg, "mode": mode,
                               "nodes": nodes})
+        # sibling stream: several near-identical custom nodes in one HUGR, registry partial in what tells them apart
+        for n in range(140 * (1 if tier == "quick" else 12)):
+            cases.append(sibling_case(rng, allstd))
         # edge stream: inconsistent bounds, definition-backed types built directly, polymorphic function types
         for n in range(70 * k):
             universe = rand_universe(rng)
@@ -1243,6 +1470,10 @@ class C11(fw.Prop):
             d["registry_mode"][m] = d["registry_mode"].get(m, 0) + 1
             d["via"][c["via"]] = d["via"].get(c["via"], 0) + 1
             inp = o["input"] if c["kind"] != "hugr" else [n["op"] for n in o["nodes"]]
+            for t in c.get("sib", []):
+                t = t.split(":")[0] + (":" + t.split(":")[-1] if ":" in t else "")
+                d.setdefault("sibling_variants", {})
+                d["sibling_variants"][t] = d["sibling_variants"].get(t, 0) + 1
             nd = str(nest_depth(inp))
             d["opaque_nesting_depth"][nd] = d["opaque_nesting_depth"].get(nd, 0) + 1
             if c["kind"] == "hugr":
